@@ -237,13 +237,18 @@ func (u *PacketUnderlay) RunEventLoop(ctx context.Context) error {
 				if u.isClient || seg.block != nil {
 					// Request the peer to close the session.
 					// Client uses u.block so it is safe when seg.block is nil.
+					//
+					// This end no longer knows the session, so it can't tell
+					// whether the peer has received everything that was sent.
+					// Use a sequence number ahead of what the peer expects,
+					// so the peer doesn't treat this as a clean end of stream.
 					closeReq := &segment{
 						metadata: &sessionStruct{
 							baseStruct: baseStruct{
 								protocol: uint8(closeSessionRequest),
 							},
 							sessionID:  das.sessionID,
-							seq:        das.unAckSeq,
+							seq:        das.unAckSeq + 1,
 							statusCode: 0,
 							payloadLen: 0,
 						},
